@@ -197,6 +197,9 @@ def stepLine (st : St) (line : String) : St × String :=
           some (zoomImageParams3 im (H zz) (H zy) (H zx) (H oz) (H oy) (H ox) (I nz) (I ny) (I nx) (I opt).toNat)
         | "2d", [zoom, xoff, yoff, n] => some (zoomImageParams2 im (H zoom) (H xoff) (H yoff) (I n) (I opt).toNat)
         | "out", go => (parseGrid go).map fun go => ⟨go, zoomImage3 go im (I opt).toNat⟩
+        -- the transaxial two-step call `zoom_image(PixelsOnCartesianGrid& out, const PixelsOnCartesianGrid& in, options)` on one plane
+        -- (both grids are written with one plane; their z entries are echoed, not used)
+        | "pl", go => (parseGrid go).map fun go => ⟨go, im.d.map fun pl => zoomImage2 go im.g pl (I opt).toNat⟩
         | _, _ => none
       match run im with
       | some r =>
